@@ -41,8 +41,15 @@ def jobs(tier):
             js.append(dict(kind="m1m2", large=large, very=very))
     b = bounds(tier)
     for large in (False, True):
-        js.append(dict(kind="prem", mode=0, large=large, ks=b["ks"]))
-        js.append(dict(kind="prem", mode=1, large=large, ks=b["ks"] - 1 if tier == "quick" else 2, it=b["it"]))
+        if tier == "quick":
+            js.append(dict(kind="prem", mode=0, large=large, ks=2))
+            js.append(dict(kind="prem", mode=1, large=large, ks=1, it=2))
+        else:
+            for i in range(12):
+                js.append(dict(kind="prem", mode=0, large=large, ks=3, shard=[i, 12, 16]))
+            for i in range(8):
+                js.append(dict(kind="prem", mode=1, large=large, ks=2, it=2, shard=[i, 8, 16]))
+            js.append(dict(kind="prem", mode=1, large=large, ks=1, it=3))
     return js
 
 
@@ -52,7 +59,8 @@ def meta_for(tier):
     m["bounds"] = ["all 2^48 pairs (six symbolic 8-bit channels), large_text x very_readable enumerated",
                    "clause 1: all 10 recursive iterations of mode 1; mode 2 is followed as far as the mode-1 success path needs",
                    "clause 2: the tolerance schedules the strategies pass are truncated to their first %d and last entries (bounded model of the "
-                   "schedule loop); mode 0 fully, mode 1 with the recursion truncated to %d iterations; mode 2 reduces to mode 1 plus clause 1" % (b["ks"] - 1, b["it"])]
+                   "schedule loop); mode 0 fully, mode 1 with the recursion truncated to %d iterations (thorough: 2 iterations with 2-entry schedules and 3 with "
+                   "1-entry schedules); mode 2 reduces to mode 1 plus clause 1" % (b["ks"] - 1, b["it"])]
     m["outside"] = ["longer schedules / more recursive iterations in clause 2 (same loop bodies)", "mode 2 in clause 2"]
     return m
 
@@ -144,7 +152,7 @@ def run_job(job):
             pr.obligations = [("no exception (%s: %s)" % (type(pr.exc).__name__, str(pr.exc)[:100]), z3.BoolVal(False), {})]
         runner.discharge(ID, job, pr, out, rk)
 
-    eng.explore(fn, on_path)
+    eng.explore(fn, on_path, shard=tuple(job["shard"]) if job.get("shard") else None)
     out.d["stats"] = dict(eng.stats)
     return out.d
 
